@@ -159,6 +159,15 @@ pub fn gen_base(seed: u64, idx: u64) -> Plan {
                     c.h2.push(w.h2(j, r.range(0, 400)));
                     reqs.push(w.plan());
                 }
+                if r.chance(1, 2) {
+                    // ... and keeps the idle connection for minutes: the
+                    // server has to end it, shutdown must not wait for the
+                    // client to go
+                    steps.push(Step::AwaitEof { max_ms: r.range(70_000, 200_000) });
+                    if r.chance(1, 2) {
+                        steps.push(Step::Sleep { ms: r.range(70_000, 200_000) });
+                    }
+                }
             }
             _ => {
                 // pipelined requests
@@ -380,9 +389,24 @@ pub fn check_c17(
             }
         }
     }
+    // nor is the hang-up of an HTTP/2 client all of whose requests had been
+    // answered by then: an idle connection is the server's to end
+    let mut idle_h2: BTreeMap<u32, u64> = BTreeMap::new();
+    for (ci, cp) in plan.conns.iter().enumerate() {
+        if cp.kind != ConnKind::H2 {
+            continue;
+        }
+        let obs = &out.conns[ci];
+        if let (Some(id), true) = (obs.conn_id, obs.by_req.iter().all(|x| x.is_some())) {
+            let last = obs.by_req.iter().flatten().map(|x| x.seq_done).max().unwrap_or(0);
+            idle_h2.insert(id, last);
+        }
+    }
     for e in &out.events {
         if matches!(e.kind, Ev::ClientClose | Ev::ClientReset | Ev::ClientHalfClose)
-            && (saw_eof.get(&e.conn).map(|q| e.seq > *q).unwrap_or(false) || headless.contains(&e.conn))
+            && (saw_eof.get(&e.conn).map(|q| e.seq > *q).unwrap_or(false)
+                || headless.contains(&e.conn)
+                || idle_h2.get(&e.conn).map(|q| e.seq > *q).unwrap_or(false))
         {
             continue;
         }
